@@ -54,12 +54,18 @@ Notation store := (store V).
    whether apply2 has to load the stored record first (update of a re-read event), the bytes *)
 (* it_kind: what kind of record the row is - 0 log entry, 1 CDoc, 2 singleton CDoc, 3 WDoc,
    4 singleton WDoc, 5 CRecord, 6 WRecord (nested records under their parent document) *)
-Record item := mkItem { it_pk : bytes; it_cc : bytes; it_kind : N; it_new : bool; it_load : bool; it_val : V }.
+(* it_new: the row is a CUD create.  it_stale: the row is an update built by ICUD.Update from a record
+   OBJECT whose isNew flag is set (the object handed out for a created row, e.g. by the Apply2 callback)
+   instead of a record read from the storage. *)
+Record item := mkItem { it_pk : bytes; it_cc : bytes; it_kind : N; it_new : bool; it_stale : bool; it_load : bool; it_val : V }.
 
 (* apply2's `store` closure hands rec.isNew on to putRecordsBatch; the translator extracts for which
    record kinds (if any) it clears the flag first (Gen/Params.c05_store_put_kinds; now: none) *)
 Definition store_as_update (it : item) : bool := existsb (N.eqb (it_kind it)) c05_store_put_kinds.
-Definition batch_new (it : item) : bool := it_new it && negb (store_as_update it).
+(* newUpdateRec copies the record object given to ICUD.Update, flag included (Gen/Params.c05_update_inherits_isnew):
+   such an update row reaches putRecordsBatch as "new" *)
+Definition stale_new (it : item) : bool := c05_update_inherits_isnew && it_stale it && negb (it_new it).
+Definition batch_new (it : item) : bool := (it_new it || stale_new it) && negb (store_as_update it).
 
 (* calls into IAppStorage as the recording wrapper sees them *)
 Inductive call :=
@@ -261,6 +267,11 @@ Definition satisfies_step (trust : N) (s : step) : bool :=
 
 Definition gsatisfies (t : gtrace) : bool := forallb (satisfies_step (t_trust t)) (t_steps t).
 
+(* no update row of the trace inherits a set isNew flag (what the link theorem needs while
+   c05_update_inherits_isnew holds; see Properties/C05.v) *)
+Definition clean_step (s : step) : bool := forallb (fun sl => negb (stale_new (sl_it sl))) (s_slots s).
+Definition gclean (t : gtrace) : bool := forallb clean_step (t_steps t).
+
 End Model.
 
 Arguments item : clear implicits.
@@ -276,3 +287,4 @@ Definition val_eqb (a b : val) : bool := (fst a =? fst b) && (snd a =? snd b).
 Definition trace := gtrace val.
 Definition agrees (t : trace) : bool := gagrees (@snd N N) val_eqb t.
 Definition satisfies (t : trace) : bool := gsatisfies (@snd N N) val_eqb t.
+Definition clean (t : trace) : bool := gclean t.
